@@ -1135,13 +1135,26 @@ func (ec *evalCtx) evalCall(x *ast.CallExpr) (Value, types.Type) {
 	case "forall", "exists":
 		// forall(i, lo, hi, body)
 		id, ok := x.Args[0].(*ast.Ident)
-		if !ok || len(x.Args) != 4 {
-			ec.fail("%s(i, lo, hi, body)", name)
+		if !ok || (len(x.Args) != 4 && len(x.Args) != 2) {
+			ec.fail("%s(i, lo, hi, body) or %s(k, body)", name, name)
 		}
 		top := ec.skTop
 		ec.skTop = false
-		lo, _ := arg(1)
-		hi, _ := arg(2)
+		bi := 3
+		unb := len(x.Args) == 2 // forall(k, body): k ranges over all integers
+		var lo, hi Value
+		if unb {
+			bi = 1
+		} else {
+			lo, _ = arg(1)
+			hi, _ = arg(2)
+		}
+		inRange := func(t Term) Term {
+			if unb {
+				return "true"
+			}
+			return sAnd("(<= "+lo.C[0]+" "+t+")", "(< "+t+" "+hi.C[0]+")")
+		}
 		if top && name == "forall" && vc.inQuant == 0 {
 			// goal position: prove the body for a fresh constant
 			sk := vc.fresh("sk."+id.Name, "Int")
@@ -1149,13 +1162,13 @@ func (ec *evalCtx) evalCall(x *ast.CallExpr) (Value, types.Type) {
 			saved, had := ec.qvars[id.Name]
 			ec.qvars[id.Name] = bound{Value{C: []Term{sk}}, types.Typ[types.Int]}
 			ec.skTop = true
-			b, _ := arg(3)
+			b, _ := arg(bi)
 			if had {
 				ec.qvars[id.Name] = saved
 			} else {
 				delete(ec.qvars, id.Name)
 			}
-			return Value{C: []Term{sImp(sAnd("(<= "+lo.C[0]+" "+sk+")", "(< "+sk+" "+hi.C[0]+")"), b.C[0])}}, tBool
+			return Value{C: []Term{sImp(inRange(sk), b.C[0])}}, tBool
 		}
 		defer func() { ec.skTop = top }()
 		vc.nfresh++
@@ -1166,21 +1179,23 @@ func (ec *evalCtx) evalCall(x *ast.CallExpr) (Value, types.Type) {
 		func() {
 			vc.inQuant++
 			defer func() { vc.inQuant-- }()
-			body, _ = arg(3)
+			body, _ = arg(bi)
 		}()
 		if had {
 			ec.qvars[id.Name] = saved
 		} else {
 			delete(ec.qvars, id.Name)
 		}
-		rng := sAnd("(<= "+lo.C[0]+" "+qn+")", "(< "+qn+" "+hi.C[0]+")")
+		rng := inRange(qn)
 		if name == "forall" {
 			q := "(forall ((" + qn + " Int)) " + sImp(rng, body.C[0]) + ")"
 			if len(ec.inst) > 0 && vc.inQuant == 0 {
 				// instantiation hints (sound: instances of the universal statement itself)
 				parts := []Term{q}
 				insts := append([]Term{}, ec.inst...)
-				insts = append(insts, lo.C[0], iSub(hi.C[0], "1"))
+				if !unb {
+					insts = append(insts, lo.C[0], iSub(hi.C[0], "1"))
+				}
 				done := map[Term]bool{}
 				for _, t := range insts {
 					if done[t] {
@@ -1191,14 +1206,14 @@ func (ec *evalCtx) evalCall(x *ast.CallExpr) (Value, types.Type) {
 					ec.qvars[id.Name] = bound{Value{C: []Term{t}}, types.Typ[types.Int]}
 					keep := ec.inst
 					ec.inst = nil
-					b, _ := arg(3)
+					b, _ := arg(bi)
 					ec.inst = keep
 					if had {
 						ec.qvars[id.Name] = saved
 					} else {
 						delete(ec.qvars, id.Name)
 					}
-					parts = append(parts, sImp(sAnd("(<= "+lo.C[0]+" "+t+")", "(< "+t+" "+hi.C[0]+")"), b.C[0]))
+					parts = append(parts, sImp(inRange(t), b.C[0]))
 				}
 				return Value{C: []Term{sAnd(parts...)}}, tBool
 			}
